@@ -155,12 +155,12 @@ pub fn gen_module(rng: &mut Rng, with_cfg: bool) -> Module {
                     fixed += 1;
                     abi = Some(format!("fixed_symbol_{fixed}")); // no placeholder: a pure rename
                 }
-                methods.push(Method { name: format!("m{}", util::letters(mcount)), abi, attrs: if with_cfg { gen_attrs(rng, 1, 4, false, "") } else { vec![] }, is_static: rng.chance(1, 4) });
+                methods.push(Method { name: format!("m{}", util::letters(mcount)), abi, attrs: if with_cfg { gen_attrs(rng, 1, 4, true, &format!("Me{ti}x{mcount}")) } else { vec![] }, is_static: rng.chance(1, 4) });
                 mcount += 1;
             }
             impls.push(Impl { abi: gen_abi(rng, 1, 4), attrs: if with_cfg { gen_attrs(rng, 1, 6, false, "") } else { vec![] }, methods });
         }
-        types.push(Type { kind, name, abi: gen_abi(rng, 1, 4), attrs: if with_cfg { gen_attrs(rng, 1, 4, false, "") } else { vec![] }, impls });
+        types.push(Type { kind, name, abi: gen_abi(rng, 1, 4), attrs: if with_cfg { gen_attrs(rng, 1, 3, true, &format!("Ty{ti}")) } else { vec![] }, impls });
     }
     Module { abi: gen_abi(rng, 1, 3), attrs: if with_cfg { gen_attrs(rng, 1, 8, false, "") } else { vec![] }, types }
 }
